@@ -154,6 +154,16 @@ def run(ctx, cases_override=None):
         return fails
     # ---- B, Z: adapters vs model, spec oracle for the block product
     v = c17.block_cases(tier, seed + 7, prefix="b") + c17.complex_cases(tier, seed + 7, prefix="z")
+    # the block adapter on top of the other adapters (row builder, zero-copy, tuple): every square block case again
+    comp = []
+    for l in v:
+        sp = l.split(" ", 3)
+        if sp[1] == "block":
+            dims_ = sp[3].split(" ", 2)
+            if dims_[0] == dims_[1]:
+                for u in ("builder", "zero_copy", "tuple"):
+                    comp.append("%s%s block_over %s %s %s" % (sp[0], u[0], u, sp[2], sp[3]))
+    v = v + comp
     f, impl, model = diff_run(ctx, "adapters", v, theorem="correspondence drv_adapters vs Adapters.v (block_matrix adapter, unblock_matrix, block spmv, complex adapter; theorems C13_unblock_block_dense, C13_complex_adapter_action)")
     fails += f
     ol = []; byid = {}
